@@ -814,7 +814,8 @@ def attach_models(modname, cases, workdir_tag="prepass"):
     takes as input, then build the model calls."""
     from harness import core
     todo = [c for c in cases if "model" not in c]
-    outs = core.run_impl(modname, todo, os.path.join(core.BUILD, "run", modname.upper(), workdir_tag))
+    outs = core.run_impl(modname, todo, os.path.join(core.BUILD, "run", modname.upper() + "_" + os.environ.get("VERIF_RUN_TAG", ""),
+                                                      workdir_tag + "_%d" % os.getpid()))
     for c, o in zip(todo, outs):
         lay = o.get("layout") if isinstance(o, dict) else None
         if layout_usable(lay):
